@@ -51,12 +51,23 @@ func WithDebug(f func(format string, arg ...any)) Option {
 func NewConn(ctx context.Context, conn net.Conn, options ...Option) (outConn *Conn, err error) {
 	defer func() { convertErrorsToAlerts(conn, err) }()
 	done := make(chan struct{})
-	defer close(done)
+	interrupted := make(chan bool, 1)
 	go func() {
 		select {
 		case <-done:
+			interrupted <- false
 		case <-ctx.Done():
 			conn.SetDeadline(time.Now())
+			interrupted <- true
+		}
+	}()
+	defer func() {
+		// Wait for the goroutine above, so that ctx cannot affect conn once
+		// NewConn has returned. If ctx ended just as the ClientHello was
+		// processed, the deadline is already set: report the context error.
+		close(done)
+		if <-interrupted && err == nil {
+			outConn, err = nil, ctx.Err()
 		}
 	}()
 	record, err := readRecord(conn)
